@@ -268,6 +268,15 @@ fn run_case(plan: &Plan) -> Judged {
 			// 3. repair + append + read (on a sample: it is slower)
 			if pi % 4 == 0 {
 				let before = got.len();
+				// half of the repairs find the partial output of an earlier repair that was
+				// interrupted by a crash (a cut copy of the segment under repair_temp/)
+				if pi % 8 == 0 {
+					let left = work.join("repair_temp");
+					std::fs::create_dir_all(&left).ok();
+					let cut = (pos * 7 + 13) % (built.file.len() + 1);
+					std::fs::write(left.join("00000000000000000000.wal"), &built.file[..cut]).ok();
+					j.count("repairs_over_leftover", 1);
+				}
 				if let Err(e) = wal_repair_segment(&work, 0) {
 					// repair may legitimately refuse nothing: any error is a finding
 					fail(&mut j, "repair_failed", format!("{}: repair returned an error: {}; {}", what, e, ctx));
@@ -537,6 +546,14 @@ fn store_leg(seed: u64, j: &mut Judged) {
 			// 2b. recovery with repair, then further commits, then the next open
 			if !stage(&work) {
 				return Some(Violation::new("harness", "store leg: cannot stage directory".to_string()));
+			}
+			if round % 3 == 1 {
+				// leftover of a repair that a crash interrupted
+				let left = work.join("wal").join("repair_temp");
+				std::fs::create_dir_all(&left).ok();
+				let cut = rng.below(orig.len() as u64 + 1) as usize;
+				std::fs::write(left.join("00000000000000000000.wal"), &orig[..cut]).ok();
+				j.count("store_leg.repairs_over_leftover", 1);
 			}
 			j.evaluations += 1;
 			let t = match open_store(&opts, &work) {
